@@ -506,6 +506,103 @@ pub fn trusted_base_conformance<const N: usize>(s: &mut dyn Src, r: &mut Report)
       && dedup.len() == items.len() && items.len() == x.len() && items.iter().all(|e| x.contains(e)));
 }
 
+// ---- size sweeps: bucket lengths and map sizes far beyond the exhaustive enumerations (size-based branches, thresholds) ----
+/// from = {0: [0..a)} + na singleton keys, to = {0: [100..100+b)} + nb singleton keys (a or b = 0: key 0 absent on that side);
+/// bytes: a, b, na, nb
+fn sweep_models(s: &mut dyn Src) -> (Vec<(u8, u8)>, Vec<(u8, u8)>) {
+   let a = s.byte();
+   let b = s.byte();
+   let na = s.byte();
+   let nb = s.byte();
+   s.require(a <= 70 && b <= 70 && na <= 70 && nb <= 70);
+   let mut ps = vec![];
+   let mut qs = vec![];
+   for i in 0..a { ps.push((0u8, i)); }
+   for i in 0..b { qs.push((0u8, 100 + i)); }
+   // extra keys: from uses 1..=na, to uses 40..40+nb (overlap when both are large: shared keys with singleton buckets)
+   for i in 0..na { ps.push((1 + i, 200)); }
+   for i in 0..nb { qs.push((40 + i, 201)); }
+   (ps, qs)
+}
+fn t1_equals_model_all(ind: &RelIndexType1<u8, u8>, m: &Model) -> bool {
+   let mut all: Vec<(u8, Vec<u8>)> = ind.iter_all().map(|(k, it)| (*k, sorted(it.cloned().collect()))).collect();
+   all.sort();
+   all == m.iter().map(|(k, v)| (*k, sorted(v.clone()))).collect::<Vec<_>>() && RelIndexRead::len_estimate(ind) == m.len()
+}
+pub fn t1_move_sweep(s: &mut dyn Src, r: &mut Report) {
+   let (ps, qs) = sweep_models(s);
+   let (mut from, mf) = build_t1(&ps);
+   let (mut to, mt) = build_t1(&qs);
+   RelIndexMerge::move_index_contents(&mut from, &mut to);
+   chk!(r, "type1_move_leaves_from_empty", from.is_empty());
+   chk!(r, "type1_move_to_is_old_to_plus_old_from", t1_equals_model_all(&to, &model_union(&mt, &mf)));
+   // and through the default merge: total = total + delta, delta = new
+   let (mut new, mn) = build_t1(&[(9, 9)]);
+   let (mut delta, md) = build_t1(&ps);
+   let (mut total, mtt) = build_t1(&qs);
+   RelIndexMerge::merge_delta_to_total_new_to_delta(&mut new, &mut delta, &mut total);
+   chk!(r, "type1_merge_total_is_old_total_plus_old_delta", t1_equals_model_all(&total, &model_union(&mtt, &md)));
+   chk!(r, "type1_merge_delta_is_old_new", t1_equals_model_all(&delta, &mn) && new.is_empty());
+}
+pub fn lat_move_sweep(s: &mut dyn Src, r: &mut Report) {
+   let (ps, qs) = sweep_models(s);
+   // overlapping values so that unions are non-trivial: shift to's values for key 0 down by 100 - a/2
+   let qs: Vec<(u8, u8)> = qs.iter().map(|&(k, v)| if k == 0 { (k, v - 100 + (ps.len() as u8 % 7)) } else { (k, v) }).collect();
+   let (mut a, ma) = build_lat(&ps);
+   let (mut b, mb) = build_lat(&qs);
+   let mut un = ma.clone();
+   for (k, vs) in &mb {
+      let e = un.entry(*k).or_default();
+      for v in vs { if !e.contains(v) { e.push(*v); } }
+   }
+   RelIndexMerge::move_index_contents(&mut a, &mut b);
+   let mut all: Vec<(u8, Vec<u8>)> = b.iter_all().map(|(k, it)| (*k, sorted(it.cloned().collect()))).collect();
+   all.sort();
+   chk!(r, "lattice_move_leaves_from_empty", a.is_empty());
+   chk!(r, "lattice_move_to_is_per_key_union", all == un.iter().map(|(k, v)| (*k, sorted(v.clone()))).collect::<Vec<_>>());
+}
+pub fn full_sweep_contract(s: &mut dyn Src, r: &mut Report) {
+   let (ps, qs) = sweep_models(s);
+   let mut a = RelFullIndexType::<u8, u8>::default();
+   let mut b = RelFullIndexType::<u8, u8>::default();
+   let mut ma: BTreeMap<u8, u8> = BTreeMap::new();
+   let mut mb: BTreeMap<u8, u8> = BTreeMap::new();
+   // full indices are keyed by the whole tuple: use the VALUE byte of the sweep as key so that sizes vary with a, b
+   let mut ok_ret = true;
+   for &(k, v) in &ps {
+      let key = if k == 0 { v } else { k.wrapping_add(150) };
+      if a.insert_if_not_present(&key, 1) != !ma.contains_key(&key) { ok_ret = false; }
+      ma.entry(key).or_insert(1);
+   }
+   for &(k, v) in &qs {
+      let key = if k == 0 { v - 100 + 30 } else { k.wrapping_add(150) };
+      RelIndexWrite::index_insert(&mut b, key, 1);
+      mb.insert(key, 1);
+   }
+   chk!(r, "full_insert_if_not_present_true_exactly_for_first_insertion", ok_ret);
+   let mut un = ma.clone();
+   for (k, v) in &mb { un.insert(*k, *v); }
+   RelIndexMerge::move_index_contents(&mut a, &mut b);
+   let mut all: Vec<(u8, u8)> = b.iter_all().map(|(k, mut it)| (*k, *it.next().unwrap())).collect();
+   all.sort();
+   chk!(r, "full_move_leaves_from_empty", a.is_empty());
+   chk!(r, "full_move_keeps_every_key_of_both", all == un.iter().map(|(k, v)| (*k, *v)).collect::<Vec<_>>() && RelIndexRead::len_estimate(&b) == un.len());
+}
+pub fn noindex_sweep_contract(s: &mut dyn Src, r: &mut Report) {
+   let (ps, qs) = sweep_models(s);
+   let mut a = RelNoIndexType::default();
+   let mut b = RelNoIndexType::default();
+   for &(_, v) in &ps { a.index_insert((), v as usize); }
+   for &(_, v) in &qs { b.index_insert((), v as usize); }
+   let mut want: Vec<usize> = ps.iter().chain(qs.iter()).map(|p| p.1 as usize).collect();
+   want.sort();
+   RelIndexMerge::move_index_contents(&mut a, &mut b);
+   let mut got = b.clone();
+   got.sort();
+   chk!(r, "noindex_move_leaves_from_empty", a.is_empty());
+   chk!(r, "noindex_move_to_holds_every_row_once", got == want);
+}
+
 pub type Runner = fn(&mut dyn Src, &mut Report);
 
 macro_rules! registry {
@@ -543,12 +640,19 @@ kani {
 native {
    type1_insert_get_le4 => |s, r| { t1_insert_get::<4>(s, r) },
    type1_move_le3 => |s, r| { t1_move::<3>(s, r) },
+   type1_move_le5 => |s, r| { t1_move::<5>(s, r) },
+   full_ops_le5 => |s, r| { full_ops::<5>(s, r) },
+   lattice_ops_le5 => |s, r| { lat_ops::<5>(s, r) },
    type1_merge_le2 => |s, r| { t1_merge::<2>(s, r) },
    full_ops_le3 => |s, r| { full_ops::<3>(s, r) },
    lattice_ops_le3 => |s, r| { lat_ops::<3>(s, r) },
    noindex_ops_le3 => |s, r| { noindex_ops::<3>(s, r) },
    combined_view_native => |s, r| { combined_contract(s, r) },
    forwarders_native => |s, r| { forwarders_contract(s, r) },
+   type1_move_sweep => |s, r| { t1_move_sweep(s, r) },
+   lattice_move_sweep => |s, r| { lat_move_sweep(s, r) },
+   full_move_sweep => |s, r| { full_sweep_contract(s, r) },
+   noindex_move_sweep => |s, r| { noindex_sweep_contract(s, r) },
    trusted_base_conformance_le3 => |s, r| { trusted_base_conformance::<3>(s, r) },
 }
 }
